@@ -96,4 +96,14 @@ theorem seal_unseal_same_cid {K : Type} (cidOf : Bytes → GoM C) (enc : Gen.Dlg
   have h2 := ((Dlg_FromSealed_ok_iff dec canon cidOf data t' c').1 hu).2.2
   rw [h1] at h2; exact (Except.ok.inj h2).symm
 
+-- non-vacuity: with a decoder that accepts, a canonical-form check that passes exactly on [1, 2] and the length as "CID", the
+-- regenerated function hands out the token and the CID of the input; on other bytes it refuses
+example : Gen.token_FromSealed (C := Nat) (fun b => .ok b.length) (fun b => if b = [1, 2] then .ok () else .error (.err "nc"))
+    (fun b => .ok (b.length + 100)) [1, 2] = .ok (2, 102) := by
+  simp [Gen.token_FromSealed, bind, Except.bind, pure, Except.pure]
+
+example : Gen.token_FromSealed (C := Nat) (fun b => .ok b.length) (fun b => if b = [1, 2] then .ok () else .error (.err "nc"))
+    (fun b => .ok (b.length + 100)) [1, 2, 3] = .error (.err "nc") := by
+  simp [Gen.token_FromSealed, bind, Except.bind, pure, Except.pure]
+
 end Ucan.Tie
